@@ -63,9 +63,9 @@ theorem Frame.setEv {s : St} {e : Nat} {ev ev' : Ev} (he : s.evs[e]? = some ev)
 
 theorem exceeds_zero (c : Nat) : exceeds 0 c = false := by simp [exceeds]
 
-theorem frame_visitKey (trigRec : St → Nat → Nat → St × List Call)
-    (hrec : ∀ s e a, Frame s (trigRec s e a).1) (e a : Nat) (acc : St × List Call) (k : Nat) :
-    Frame acc.1 (visitKey trigRec e a acc k).1 := by
+theorem frame_visitKey (trigRec : St → Nat → Nat → Bool → St × List Call)
+    (hrec : ∀ s e a b, Frame s (trigRec s e a b).1) (e a : Nat) (async : Bool) (acc : St × List Call) (k : Nat) :
+    Frame acc.1 (visitKey trigRec e a async acc k).1 := by
   unfold visitKey
   cases hk : acc.1.hooks[k]? with
   | none => exact Frame.refl _
@@ -86,23 +86,23 @@ theorem frame_visitKey (trigRec : St → Nat → Nat → St × List Call)
         have f1 : Frame acc.1 (setHook acc.1 k { h with count := h.count + 1, fired := h.fired + 1 }) :=
           Frame.setHook hk rfl rfl rfl id (fun _ => rfl)
         split
-        · exact f1.trans (hrec _ _ a)
+        · exact f1.trans (hrec _ _ a _)
         · exact f1
 
-theorem frame_fold (trigRec : St → Nat → Nat → St × List Call)
-    (hrec : ∀ s e a, Frame s (trigRec s e a).1) (e a : Nat) (ks : List Nat) (acc : St × List Call) :
-    Frame acc.1 (ks.foldl (visitKey trigRec e a) acc).1 := by
+theorem frame_fold (trigRec : St → Nat → Nat → Bool → St × List Call)
+    (hrec : ∀ s e a b, Frame s (trigRec s e a b).1) (e a : Nat) (async : Bool) (ks : List Nat)
+    (acc : St × List Call) : Frame acc.1 (ks.foldl (visitKey trigRec e a async) acc).1 := by
   induction ks generalizing acc with
   | nil => exact Frame.refl _
   | cons k ks ih =>
     simp only [List.foldl_cons]
-    exact (frame_visitKey trigRec hrec e a acc k).trans (ih _)
+    exact (frame_visitKey trigRec hrec e a async acc k).trans (ih _)
 
-theorem frame_trig (fuel : Nat) : ∀ s e a, Frame s (trig fuel s e a).1 := by
+theorem frame_trig (fuel : Nat) : ∀ s e a b, Frame s (trig fuel s e a b).1 := by
   induction fuel with
-  | zero => intro s e a; exact Frame.refl _
+  | zero => intro s e a b; exact Frame.refl _
   | succ fuel ih =>
-    intro s e a
+    intro s e a b
     simp only [trig]
     cases hev : s.evs[e]? with
     | none => exact Frame.refl _
@@ -113,7 +113,7 @@ theorem frame_trig (fuel : Nat) : ∀ s e a, Frame s (trig fuel s e a).1 := by
       · simp only [hx, Bool.false_eq_true, if_false]
         have f1 : Frame s (setEv s e { ev with count := ev.count + 1, passed := ev.passed + 1 }) :=
           Frame.setEv hev rfl rfl
-        exact f1.trans (frame_fold (trig fuel) ih e a _ (_, []))
+        exact f1.trans (frame_fold (trig fuel) ih e a b _ (_, []))
 
 /-- The link structure: an event's `link` field and the link hooks sitting in registries agree. -/
 structure LinkInv (s : St) : Prop where
@@ -241,7 +241,7 @@ def unlinkSt (s : St) (src : Nat) (ev : Ev) : St :=
 
 /-- The hook `LinkTo` installs on the target. -/
 def linkHook (src tgt : Nat) : Hook :=
-  { ev := tgt, handle := 0, link := some src, max := 0, count := 0, fired := 0, pooled := false, pre := false,
+  { ev := tgt, handle := 0, link := some src, max := 0, count := 0, fired := 0, pool := none, pre := false,
     attached := true }
 
 /-- Hooking the link hook on `tgt` for an event that currently has no link. -/
@@ -386,7 +386,7 @@ theorem linkInv_link {s : St} (h : LinkInv s) (src tgt : Nat) (ev : Ev) (he : s.
 
 theorem linkInv_step {s : St} (h : LinkInv s) (op : Op) : LinkInv (step s op).1 := by
   cases op with
-  | new m p =>
+  | new m p q =>
     simp only [step]
     refine ⟨?_, ?_, h.linkmax, h.userhooks⟩
     · intro src ev k he hl
@@ -417,7 +417,7 @@ theorem linkInv_step {s : St} (h : LinkInv s) (op : Op) : LinkInv (step s op).1 
   | trigger e a =>
     simp only [step]
     split
-    · exact h.frame (frame_trig _ s e a)
+    · exact h.frame (frame_trig _ s e a false)
     · exact h
   | link src tgt =>
     cases he : s.evs[src]? with
